@@ -106,6 +106,8 @@ def run_case(case):
             exp_t = [c for c in ball if incl or c != centre]
             exp_i = [index[c] for c in exp_t]
             for rname, rep in reprs.items():
+                if r >= 2 ** 31 and rname in ("np-tuple", "pos-np"):
+                    continue        # numpy-typed centres are limited to numpy's own integer range (centre + radius beyond 2**63 overflows in numpy scalar arithmetic): not generated
                 for entry in ("specific", "generic") + (("kw-minimal", "kw-one") if rname in ("tuple", "id") else ()):
                     for ret, exp in ((tuple, exp_t), (int, exp_i)):
                         if rname == "moved":
@@ -115,7 +117,7 @@ def run_case(case):
                             else:
                                 env.get_neighbours(moving, radius=r, incl_center=incl, ret_type=ret, mode=mode)
                             moving.x, moving.y, moving.z = centre
-                        r_arg = np.int64(r) if rname in ("np-tuple", "pos-np") else r
+                        r_arg = np.int64(r) if rname in ("np-tuple", "pos-np") and r < 2 ** 31 else r
                         # the flag as the flags of other libraries arrive: a numpy boolean, the integers 1 / 0
                         incl_arg = np.bool_(incl) if rname in ("np-tuple", "pos-np") else (int(incl) if rname == "pos" else incl)
                         if entry == "specific":
@@ -200,6 +202,8 @@ def strategy(tier):
             r = max(0, draw(st.sampled_from([m_ - 2, m_ - 1, m_, 2 * m_ - 1, 2 * m_, 2 * m_ + 1, s_ - 4, s_ - 3, s_ - 2, s_])))
             if draw(st.booleans()):             # ... seen from a corner
                 c = [draw(st.sampled_from([0, max(w, 1) - 1])), draw(st.sampled_from([0, max(h, 1) - 1])), draw(st.sampled_from([0, max(d, 1) - 1]))]
+        if draw(st.integers(0, 11)) == 0:      # "everything": radii at and beyond the 64-bit limits
+            r = draw(st.sampled_from([2 ** 62, 2 ** 63 - 1, 2 ** 63, 2 ** 64, 2 ** 70, 10 ** 30]))
         frac = [draw(st.integers(0, 11)) for _ in range(3)]
         return {"kind": kind, "w": w, "h": h, "d": d, "c": c, "r": r, "frac": frac}
     return with_done(case())
